@@ -417,7 +417,7 @@ func RunCheck(opts *CheckOpts) int {
 	// functions under contract for this property
 	var keys []string
 	for k, c := range prog.Contracts {
-		if c.Trusted && !((c.Sequential || len(c.Exhaustive) > 0 || len(c.Criticals) > 0) && hasProp(c, prop)) {
+		if c.Trusted && !((c.Sequential || len(c.Exhaustive) > 0 || len(c.Criticals) > 0 || c.ReleasesLock || c.HasErrorsFrom) && hasProp(c, prop)) {
 			continue
 		}
 		if opts.AllFuncs || hasProp(c, prop) {
@@ -476,7 +476,7 @@ func RunCheck(opts *CheckOpts) int {
 			r.Err = "contract does not bind: function " + ShortKey(k) + " not found"
 			continue
 		}
-		if c.Trusted && !c.Sequential && (len(c.Exhaustive) > 0 || len(c.Criticals) > 0) && fn.Blocks != nil {
+		if c.Trusted && !c.Sequential && (len(c.Exhaustive) > 0 || len(c.Criticals) > 0 || c.ReleasesLock || c.HasErrorsFrom) && fn.Blocks != nil {
 			// structural obligations only: the body is not verified
 			g := NewGen(prog, fn, c)
 			r.Gen = g
@@ -500,6 +500,12 @@ func RunCheck(opts *CheckOpts) int {
 			}
 			if r.Err != "" {
 				continue
+			}
+			if c.ReleasesLock {
+				obs = append(obs, releasesLockObligations(g, fn, k)...)
+			}
+			if c.HasErrorsFrom {
+				obs = append(obs, errorsFromObligations(prog, g, fn, k, c)...)
 			}
 			r.Obligations = append(r.Obligations, obs...)
 			all = append(all, obs...)
@@ -577,6 +583,9 @@ func RunCheck(opts *CheckOpts) int {
 			continue
 		}
 		r.Obligations = g.Obls
+		if c.ReleasesLock {
+			g.Obls = append(g.Obls, releasesLockObligations(g, fn, k)...)
+		}
 		if c.HasErrorsFrom {
 			g.Obls = append(g.Obls, errorsFromObligations(prog, g, fn, k, c)...)
 		}
@@ -2009,6 +2018,84 @@ func errorsFromObligations(prog *Program, g *Gen, fn *ssa.Function, key string, 
 	}
 	if n == 0 {
 		out = append(out, &Obligation{Name: ShortKey(key) + "#errorsfrom", Kind: "errorsfrom", Fn: key, Clause: "errorsfrom " + strings.Join(c.ErrorsFrom, ", ") + ": every returned error originates in a named callee", Reach: True, Goal: True, Gen: g})
+	}
+	return out
+}
+
+
+// releasesLockObligations: structural obligation of `releaseslock`. A forward may-analysis
+// of "a write lock taken by a plain Lock() call is held": Lock sets it, Unlock clears it
+// (sync.Mutex / sync.RWMutex, static callees only; deferred unlocks clear it for every
+// return). A return statement reachable with the lock possibly held fails the obligation.
+func releasesLockObligations(g *Gen, fn *ssa.Function, key string) []*Obligation {
+	isSync := func(call *ssa.CallCommon, names ...string) bool {
+		f := call.StaticCallee()
+		if f == nil || f.Pkg == nil || f.Pkg.Pkg.Path() != "sync" {
+			return false
+		}
+		for _, n := range names {
+			if f.Name() == n {
+				return true
+			}
+		}
+		return false
+	}
+	deferredUnlock := false
+	for _, b := range fn.Blocks {
+		for _, in := range b.Instrs {
+			if d, ok := in.(*ssa.Defer); ok && isSync(&d.Call, "Unlock") {
+				deferredUnlock = true
+			}
+		}
+	}
+	held := map[*ssa.BasicBlock]bool{} // may be held at block entry
+	changed := true
+	exit := func(b *ssa.BasicBlock, in bool) bool {
+		h := in
+		for _, ins := range b.Instrs {
+			if c, ok := ins.(*ssa.Call); ok {
+				if isSync(&c.Call, "Lock") {
+					h = true
+				} else if isSync(&c.Call, "Unlock") {
+					h = false
+				}
+			}
+		}
+		return h
+	}
+	for changed {
+		changed = false
+		for _, b := range fn.Blocks {
+			out := exit(b, held[b])
+			if out {
+				for _, sc := range b.Succs {
+					if !held[sc] {
+						held[sc] = true
+						changed = true
+					}
+				}
+			}
+		}
+	}
+	var out []*Obligation
+	n := 0
+	if !deferredUnlock {
+		for _, b := range fn.Blocks {
+			if len(b.Instrs) == 0 {
+				continue
+			}
+			ret, ok := b.Instrs[len(b.Instrs)-1].(*ssa.Return)
+			if !ok {
+				continue
+			}
+			if exit(b, held[b]) {
+				out = append(out, &Obligation{Name: fmt.Sprintf("%s#releaseslock.%d", ShortKey(key), n), Kind: "releaseslock", Fn: key, Clause: "releaseslock: this return can be reached with the mutex still held", Pos: g.pos(ret.Pos()), Reach: True, Goal: False, Gen: g})
+				n++
+			}
+		}
+	}
+	if n == 0 {
+		out = append(out, &Obligation{Name: ShortKey(key) + "#releaseslock", Kind: "releaseslock", Fn: key, Clause: "releaseslock: no return with the mutex still held", Reach: True, Goal: True, Gen: g})
 	}
 	return out
 }
